@@ -60,6 +60,8 @@ def run(chk):
     retry_probe(chk, 25 if chk.tier == "quick" else 400)
     for lib in libs:
         _compose.run_lib(lib, chk, "C10")
+    from props import _state
+    _state.run_state(chk)
     from props import C09 as _c09
     _c09.run_batch_rules(chk)
     for f in _compose.load(["_funcs"], chk):
